@@ -460,20 +460,26 @@ structure BRes where
   fnd : List Tag
   err : Option Tag
 
+/-- the monadic part of Build: validate the header, parse the block, adjust a length the builder added itself, validate
+    length and digests. `cla` = Build added the Content-Length field itself. -/
+def buildBody (o : Opts) (Ω : Oracles) (verTxt : Bytes) (verId rt0 : Nat) (cla : Bool) (content : Bytes) : M Rec := do
+  let rtv ← validateHeader o Ω verId
+  let b ← parseBlock o Ω (if rt0 == 0 then rtv else rt0) content false
+  -- the length the builder itself added describes the block that gets serialized (WithFixWarcFieldsBlockErrors may have
+  -- rewritten a warc-fields block)
+  let h0 ← M.hdr
+  M.setHdr (if cla && b.kind == .warcFields && b.raw.length != content.length then setInt h0 (bs "Content-Length") b.raw.length else h0)
+  validateDigest H o (if rt0 == 0 then rtv else rt0) b false
+  let h ← M.hdr
+  pure { verTxt := verTxt, verId := verId, rt := (if rt0 == 0 then rtv else rt0), hdr := h, block := b }
+
 /-- recordbuilder.go Build: `rt0` is the type given to NewRecordBuilder / SetRecordType (0 = by header), `hdr` the
     header as the Add calls left it, `content` the bytes fed to the builder (C14: feeding order and spill threshold are
     invisible), `newId` the id generator's answer. -/
 def build (o : Opts) (Ω : Oracles) (verTxt : Bytes) (verId : Nat) (rt0 : Nat) (hdr : Fields) (content : Bytes) (newId : Bytes) : BRes :=
   let hdr1 := if o.addMissingRecordId && !hdr.has (bs "WARC-Record-ID") then hdr.setId (bs "WARC-Record-ID") newId else hdr
   let hdr2 := if o.addMissingContentLength && !hdr1.has (bs "Content-Length") then setInt hdr1 (bs "Content-Length") content.length else hdr1
-  let body : M Rec := do
-    let rtv ← validateHeader o Ω verId
-    let rt := if rt0 == 0 then rtv else rt0
-    let b ← parseBlock o Ω rt content false
-    validateDigest H o rt b false
-    let h ← M.hdr
-    pure { verTxt := verTxt, verId := verId, rt := rt, hdr := h, block := b }
-  match body ⟨hdr2, []⟩ with
+  match buildBody H o Ω verTxt verId rt0 (o.addMissingContentLength && !hdr1.has (bs "Content-Length")) content ⟨hdr2, []⟩ with
   | (.ok r, st) => ⟨some r, st.fnd, none⟩
   | (.error t, st) => ⟨none, st.fnd, some t⟩
 
